@@ -68,8 +68,8 @@ func runReplicas(t *testing.T, seed int64, steps int) *World {
 		recordingDefault = false
 		obsDefault = true
 		var w *World
-		if seed%3 == 0 {
-			w = scenarios["scripted"](t, seed/3)
+		if seed%2 == 0 {
+			w = scenarios["scripted"](t, seed/2)
 		} else {
 			w = RunRandom(t, seed, "default", steps).W
 		}
